@@ -49,7 +49,7 @@ ASSUMPTIONS = ['dict.get / dict.__setitem__ on the shared cache are atomic (GIL)
 
 FRACTIONS = [('recognize_number', 'one third', 'en-us'), ('recognize_number', '三分之一', 'zh-cn'),
              ('recognize_number', 'two thirds', 'en-us'), ('recognize_number', 'a hundred and five sevenths', 'en-us'),
-             ('recognize_number', 'three and one seventh', 'en-us'), ('recognize_number', 'un tiers', 'fr-fr'),
+             ('recognize_number', 'three and one seventh', 'en-us'),
              ('recognize_number', 'un tercio', 'es-es'), ('recognize_number', 'um terço', 'pt-br'),
              ('recognize_number', '三分の一', 'ja-jp'), ('recognize_number', '七分之二', 'zh-cn'),
              ('recognize_percentage', '百分之三十三', 'zh-cn'), ('recognize_number', 'ein drittel', 'de-de'),
@@ -64,12 +64,14 @@ SPEC_FN = {('Number', 'Number'): 'recognize_number', ('Number', 'Ordinal'): 'rec
            ('Sequence', 'Mention'): 'recognize_mention', ('Sequence', 'Hashtag'): 'recognize_hashtag',
            ('Sequence', 'Email'): 'recognize_email', ('Sequence', 'URL'): 'recognize_url',
            ('Sequence', 'GUID'): 'recognize_guid', ('Choice', 'Boolean'): 'recognize_boolean'}
-QUOTA_QUICK = {'recognize_number': 700, 'recognize_ordinal': 100, 'recognize_percentage': 150, 'recognize_age': 50,
+QUOTA_QUICK = {'recognize_number': 450, 'recognize_ordinal': 100, 'recognize_percentage': 150, 'recognize_age': 50,
                'recognize_currency': 60, 'recognize_dimension': 80, 'recognize_temperature': 60,
                'recognize_datetime': 150, 'recognize_phone_number': 150, 'recognize_ip_address': 50,
                'recognize_mention': 11, 'recognize_hashtag': 9, 'recognize_email': 17, 'recognize_url': 50,
                'recognize_guid': 16, 'recognize_boolean': 16}
-DT_CULTURES_QUICK = ('en-us', 'es-es', 'zh-cn')
+DT_CULTURES_QUICK = ('en-us', 'zh-cn')
+# model construction dominates a cold process (about a minute for all cultures): the quick pool keeps to these
+CULTURES_QUICK = ('en-us', 'zh-cn', 'es-es', 'de-de', 'ja-jp', 'pt-br')
 
 
 def build_pool(ctx):
@@ -78,6 +80,8 @@ def build_pool(ctx):
     for rec, model, culture, query, ref in specs.model_inputs():
         fn = SPEC_FN.get((rec, model))
         if fn is None or not query:
+            continue
+        if not ctx.thorough and culture not in CULTURES_QUICK:
             continue
         if fn == 'recognize_datetime':
             if ref is None or (not ctx.thorough and culture not in DT_CULTURES_QUICK):
@@ -96,7 +100,7 @@ def build_pool(ctx):
     extra = []
     for t in r.sample([t for t in pool if t[0] == 'recognize_number'], 40):
         c = t[2]
-        alt = {'en-us': 'en-GB', 'fr-fr': 'FR-ca', 'pt-br': 'pt-PT', 'zh-cn': 'zh-TW', 'de-de': 'DE-at'}.get(c, c.upper())
+        alt = {'en-us': 'en-GB', 'pt-br': 'pt-PT', 'zh-cn': 'zh-TW', 'de-de': 'DE-at'}.get(c, c.upper())
         extra.append((t[0], t[1], alt, 0, None))
     pool += extra
     r.shuffle(pool)
@@ -327,20 +331,21 @@ def correspond(ctx):
     r = ctx.rng('perm')
     perm = list(range(n))
     r.shuffle(perm)
-    thread_counts = [1, 2, 3, 4, 8, 16] if ctx.thorough else [1, 2, 4, 16]
+    cold_threads = [2, 3, 16] if ctx.thorough else [3, 16]
+    warm_threads = [1, 4, 8] if ctx.thorough else [1, 2, 4, 8]
     single_idx = r.sample(range(n), 48 if ctx.thorough else 16)
     jobs = {'a_seq_cold': {'pool': pool, 'mode': 'seq'},
             'c_perm_cold': {'pool': pool, 'mode': 'seq', 'order': perm},
-            'e_fresh_thread_cold': {'pool': pool, 'mode': 'fresh_thread'},
-            'p15_thread': {'pool': pool, 'mode': 'prec_thread', 'prec': 15}}
-    for k in thread_counts:
-        jobs['d_threads_%d' % k] = {'pool': pool, 'mode': 'threads', 'threads': k, 'seed': seed * 100 + k, 'copies': 2}
+            'e_fresh_thread_cold': {'pool': pool, 'mode': 'fresh_thread'}}
+    for k in cold_threads:
+        jobs['d_threads_%d_cold' % k] = {'pool': pool, 'mode': 'threads', 'threads': k, 'seed': seed * 100 + k,
+                                         'copies': 2}
     for i in single_idx:
         jobs['a1_single_%d' % i] = {'pool': [pool[i]], 'mode': 'seq'}
     results = {}
     with ThreadPoolExecutor(max_workers=12) as ex:
         futs = {name: ex.submit(child, job) for name, job in jobs.items()}
-        # meanwhile, in this process: (b) warm twice, (c) permuted warm, (e) fresh thread warm
+        # meanwhile, in this process: (b) warm twice, (c) permuted warm, (d) threads on the warm cache, (e) fresh thread
         inproc = {}
         inproc['b_first'] = c02worker.run_job({'pool': pool, 'mode': 'seq'})
         inproc['b_warm'] = c02worker.run_job({'pool': pool, 'mode': 'seq'})
@@ -348,6 +353,9 @@ def correspond(ctx):
         ctx.rng('perm2').shuffle(perm2)
         inproc['c_perm_warm'] = c02worker.run_job({'pool': pool, 'mode': 'seq', 'order': perm2})
         inproc['e_fresh_thread_warm'] = c02worker.run_job({'pool': pool, 'mode': 'fresh_thread'})
+        for k in warm_threads:
+            inproc['d_threads_%d_warm' % k] = c02worker.run_job(
+                {'pool': pool, 'mode': 'threads', 'threads': k, 'seed': seed * 100 + 50 + k, 'copies': 1})
         for name, f in futs.items():
             results[name] = f.result()
     results.update(inproc)
@@ -360,23 +368,28 @@ def correspond(ctx):
         ctx.extra['pool_tuples_raising'] = [(pool[i], canon[i]) for i in exc[:5]]
     ctx.extra['precisions'] = {name: (res.get('importing_thread_prec'), res.get('worker_thread_prec'))
                                for name, res in results.items() if not name.startswith('a1_')}
-    # which differences does "this thread runs at precision 28 instead of 15" explain?
-    p15 = results['p15_thread']['answers']
-    prec_explained, other = {}, {}
+    # which differences does "this thread runs at precision 28 instead of 15" explain? re-run the differing tuples
+    # on a fresh thread whose context precision is set to 15
+    diffs = {}
     evaluations = 0
     for name, res in results.items():
-        if name == 'p15_thread':
-            continue
         for key, lst in res['answers'].items():
             i = single_idx_of(name, key)
             for where, val in lst:
                 evaluations += 1
                 if val != canon[i]:
-                    threaded = where != 'main'
-                    if threaded and p15[str(i)][0][1] == canon[i]:
-                        prec_explained.setdefault(i, []).append((name, where, val))
-                    else:
-                        other.setdefault(i, []).append((name, where, val))
+                    diffs.setdefault(i, []).append((name, where, val))
+    prec_explained, other = {}, {}
+    if diffs:
+        idx = sorted(diffs)
+        rerun = c02worker.run_job({'pool': [pool[i] for i in idx], 'mode': 'prec_thread', 'prec': 15})
+        for j, i in enumerate(idx):
+            fixed = rerun['answers'][str(j)][0][1] == canon[i]
+            for name, where, val in diffs[i]:
+                if where != 'main' and fixed:
+                    prec_explained.setdefault(i, []).append((name, where, val))
+                else:
+                    other.setdefault(i, []).append((name, where, val))
     ctx.count('pipeline_evaluations', evaluations)
     ctx.extra['disciplines'] = sorted(n_ for n_ in results if not n_.startswith('a1_')) + ['a1_single x%d' % len(single_idx)]
     for i, lst in sorted(other.items())[:10]:
